@@ -16,11 +16,15 @@ Proof. unfold all_q. intros a b Ha Hb. rewrite forallb_app. apply andb_true_intr
 Lemma ws_not_quote : forall b, is_blockws b = true -> (b =? 34) = false.
 Proof. intros b. unfold is_blockws. lia. Qed.
 
-(* what the counters of the (not yet closed) lexer state mean for the text [p] read so far *)
+(* what the counters of the (not yet closed) lexer state mean for the text [p] read so far: [p] ends with
+   bl_ws white space bytes followed by bl_quotes pending quotes, what precedes them ends in a byte that is not
+   white space; once a byte that is not white space was seen, [p] starts with exactly bl_lead white space bytes *)
+Definition ends_nonws (p0 : bytes) : Prop := p0 = [] \/ exists x y, p0 = x ++ [y] /\ is_blockws y = false.
 Record inv (p : bytes) (st : blex) : Prop := {
   i_tail : exists p0 wss qs, p = p0 ++ wss ++ qs /\ N.of_nat (length wss) = bl_ws st /\ all_ws wss
-           /\ N.of_nat (length qs) = bl_quotes st /\ all_q qs /\ (bl_reached st = false -> p0 = []);
-  i_lead_r : bl_reached st = true -> exists w rest, p = w ++ rest /\ N.of_nat (length w) = bl_lead st /\ all_ws w;
+           /\ N.of_nat (length qs) = bl_quotes st /\ all_q qs /\ (bl_reached st = false -> p0 = []) /\ ends_nonws p0;
+  i_lead_r : bl_reached st = true ->
+             exists w y rest, p = w ++ y :: rest /\ N.of_nat (length w) = bl_lead st /\ all_ws w /\ is_blockws y = false;
   i_lead_n : bl_reached st = false -> bl_lead st = 0;
   i_esc : bl_escaped st = true -> bl_quotes st = 0 /\ bl_ws st = 0 /\ bl_reached st = true
 }.
@@ -28,7 +32,7 @@ Record inv (p : bytes) (st : blex) : Prop := {
 Lemma inv0 : inv [] blex0.
 Proof.
   constructor; cbn.
-  - exists [], [], []. repeat split; reflexivity.
+  - exists [], [], []. repeat split; try reflexivity. left. reflexivity.
   - discriminate.
   - reflexivity.
   - discriminate.
@@ -39,46 +43,75 @@ Proof. intros. rewrite app_length. simpl. lia. Qed.
 
 Ltac fin := repeat split; cbn [app length]; rewrite ?app_nil_r, <- ?app_assoc; cbn [app];
   try reflexivity; try assumption; try discriminate; try lia.
-(* the text so far, extended by [b], still starts with the white space [w] *)
+(* the text so far, extended by [b], still starts with the white space [w] and then [y] *)
 Ltac keep_lead Hr b :=
-  let w := fresh "w" in let rest := fresh "rest" in let Hw := fresh "Hw" in let Hl := fresh "Hl" in let Hww := fresh "Hww" in
-  destruct (Hr eq_refl) as (w & rest & Hw & Hl & Hww); exists w, (rest ++ [b]); rewrite Hw; fin.
+  let w := fresh "w" in let y := fresh "y" in let rest := fresh "rest" in let Hw := fresh "Hw" in
+  let Hl := fresh "Hl" in let Hww := fresh "Hww" in let Hy := fresh "Hy" in
+  destruct (Hr eq_refl) as (w & y & rest & Hw & Hl & Hww & Hy); exists w, y, (rest ++ [b]); rewrite Hw; fin.
 
 Lemma one_ws : forall b, is_blockws b = true -> all_ws [b].
 Proof. intros b H. unfold all_ws. simpl. rewrite H. reflexivity. Qed.
 Lemma one_q : forall b, (b =? 34) = true -> all_q [b].
 Proof. intros b H. unfold all_q. simpl. rewrite H. reflexivity. Qed.
+Lemma ends_snoc : forall p b, is_blockws b = false -> ends_nonws (p ++ [b]).
+Proof. intros p b H. right. exists p, b. split; [reflexivity|exact H]. Qed.
+Lemma quote_not_ws : forall b, (b =? 34) = true -> is_blockws b = false.
+Proof. intros b H. unfold is_blockws. lia. Qed.
+(* pending quotes: the text ends in a quote *)
+Lemma ends_quotes : forall p0 wss qs, all_q qs -> qs <> [] -> ends_nonws (p0 ++ wss ++ qs).
+Proof.
+  intros p0 wss qs Hq Hne. destruct (exists_last Hne) as (q' & y & ->).
+  right. exists (p0 ++ wss ++ q'), y. split; [rewrite <- !app_assoc; reflexivity|].
+  apply quote_not_ws. unfold all_q in Hq. rewrite forallb_app in Hq. apply andb_prop in Hq. destruct Hq as [_ Hy].
+  simpl in Hy. rewrite Bool.andb_true_r in Hy. exact Hy.
+Qed.
+Lemma qs_nonempty : forall (qs : bytes) n, N.of_nat (length qs) = n -> (n =? 0) = false -> qs <> [].
+Proof. intros qs n H Hn E. subst qs. simpl in H. lia. Qed.
+(* the first of the pending quotes, or else [b], is the byte after the leading white space *)
+Lemma first_after_ws : forall wss qs b, all_q qs -> is_blockws b = false ->
+  exists y rest, (wss ++ qs) ++ [b] = wss ++ y :: rest /\ is_blockws y = false.
+Proof.
+  intros wss qs b Hq Hb. destruct qs as [|q qs'].
+  - exists b, []. rewrite app_nil_r. split; [reflexivity|exact Hb].
+  - exists q, (qs' ++ [b]). split; [rewrite <- app_assoc; reflexivity|].
+    apply quote_not_ws. unfold all_q in Hq. simpl in Hq. apply andb_prop in Hq. apply Hq.
+Qed.
 
 Lemma inv_step : forall p st b, inv p st -> bl_closed st = false -> bl_closed (blex_step st b) = false ->
   inv (p ++ [b]) (blex_step st b).
 Proof.
   intros p st b [Ht Hr Hn He] Hc Hc'.
-  destruct Ht as (p0 & wss & qs & Hp & Hws & Haws & Hqs & Haq & Hp0).
+  destruct Ht as (p0 & wss & qs & Hp & Hws & Haws & Hqs & Haq & Hp0 & Hend).
   unfold blex_step in *. rewrite Hc in *.
   destruct (negb (bl_quotes st =? 0) && negb (b =? 34)) eqn:Eqc.
   - (* pending quotes become content *)
     assert (Hb34 : (b =? 34) = false) by lia.
+    assert (Hqne : qs <> []) by (apply (qs_nonempty qs _ Hqs); lia).
     destruct (is_blockws b) eqn:Ews.
     + constructor; cbn.
-      * exists (p0 ++ wss ++ qs), [b], []. subst p. fin. apply one_ws; assumption.
+      * exists (p0 ++ wss ++ qs), [b], []. subst p. fin; [apply one_ws; assumption|apply ends_quotes; assumption].
       * intros _. destruct (bl_reached st) eqn:Er.
         -- keep_lead Hr b.
-        -- exists wss, (qs ++ [b]). subst p. rewrite (Hp0 eq_refl). fin.
+        -- subst p. rewrite (Hp0 eq_refl). cbn [app].
+           destruct qs as [|q qs']; [congruence|]. exists wss, q, (qs' ++ [b]). fin.
+           apply quote_not_ws. unfold all_q in Haq. simpl in Haq. apply andb_prop in Haq. apply Haq.
       * discriminate.
       * discriminate.
     + rewrite Hb34 in *. destruct (b =? 92) eqn:E92.
       * constructor; cbn.
-        -- exists (p ++ [b]), [], []. fin.
+        -- exists (p ++ [b]), [], []. fin. apply ends_snoc; assumption.
         -- intros _. destruct (bl_reached st) eqn:Er.
            ++ keep_lead Hr b.
-           ++ exists wss, (qs ++ [b]). subst p. rewrite (Hp0 eq_refl). fin.
+           ++ subst p. rewrite (Hp0 eq_refl). cbn [app].
+              destruct (first_after_ws wss qs b Haq Ews) as (y & rest & Hy & Hyw). exists wss, y, rest. rewrite Hy. fin.
         -- discriminate.
         -- intros _. fin.
       * constructor; cbn.
-        -- exists (p ++ [b]), [], []. fin.
+        -- exists (p ++ [b]), [], []. fin. apply ends_snoc; assumption.
         -- intros _. destruct (bl_reached st) eqn:Er.
            ++ keep_lead Hr b.
-           ++ exists wss, (qs ++ [b]). subst p. rewrite (Hp0 eq_refl). fin.
+           ++ subst p. rewrite (Hp0 eq_refl). cbn [app].
+              destruct (first_after_ws wss qs b Haq Ews) as (y & rest & Hy & Hyw). exists wss, y, rest. rewrite Hy. fin.
         -- discriminate.
         -- discriminate.
   - (* no pending quotes, or another quote *)
@@ -99,7 +132,7 @@ Proof.
         -- (* an escaped quote is content *)
            destruct (He eq_refl) as (Hq0 & Hw0 & Hr1).
            constructor; cbn.
-           ++ exists (p ++ [b]), [], []. fin.
+           ++ exists (p ++ [b]), [], []. fin. apply ends_snoc; assumption.
            ++ intros Er. rewrite Er in Hr. keep_lead Hr b.
            ++ assumption.
            ++ discriminate.
@@ -116,17 +149,17 @@ Proof.
         subst qs. rewrite app_nil_r in Hp.
         destruct (b =? 92) eqn:E92.
         -- constructor; cbn.
-           ++ exists (p ++ [b]), [], []. fin.
+           ++ exists (p ++ [b]), [], []. fin. apply ends_snoc; assumption.
            ++ intros _. destruct (bl_reached st) eqn:Er.
               ** keep_lead Hr b.
-              ** exists wss, [b]. subst p. rewrite (Hp0 eq_refl). fin.
+              ** exists wss, b, []. subst p. rewrite (Hp0 eq_refl). fin.
            ++ discriminate.
            ++ intros _. fin.
         -- constructor; cbn.
-           ++ exists (p ++ [b]), [], []. fin.
+           ++ exists (p ++ [b]), [], []. fin. apply ends_snoc; assumption.
            ++ intros _. destruct (bl_reached st) eqn:Er.
               ** keep_lead Hr b.
-              ** exists wss, [b]. subst p. rewrite (Hp0 eq_refl). fin.
+              ** exists wss, b, []. subst p. rewrite (Hp0 eq_refl). fin.
            ++ discriminate.
            ++ discriminate.
 Qed.
@@ -182,14 +215,14 @@ Proof.
   repeat (apply Bool.andb_true_iff in Hg; destruct Hg as [Hg ?]).
   assert (Hc : bl_closed (blex_run raw) = false) by (destruct (bl_closed (blex_run raw)); [discriminate|reflexivity]).
   destruct (inv_run raw Hc) as [Ht Hr Hn _].
-  destruct Ht as (p0 & wss & qs & Hp & Hws & Haws & Hqs & Haq & Hp0).
+  destruct Ht as (p0 & wss & qs & Hp & Hws & Haws & Hqs & Haq & Hp0 & _).
   assert (Hqs0 : qs = []) by (destruct qs; [reflexivity|simpl in Hqs; lia]).
   subst qs. rewrite app_nil_r in Hp.
   unfold block_rescan, block_start, block_end.
   assert (E1 : last_quote_before raw 0 (N.to_nat (bl_lead (blex_run raw))) 0 = O).
   { apply last_quote_none. intros k b Hk Hlt.
     destruct (bl_reached (blex_run raw)) eqn:Er.
-    - destruct (Hr eq_refl) as (w & rest & Hw & Hl & Hww).
+    - destruct (Hr eq_refl) as (w & y & rest & Hw & Hl & Hww & _).
       rewrite Hw in Hk. rewrite nth_error_app1 in Hk by lia. eapply all_ws_nth; eassumption.
     - rewrite (Hn eq_refl) in Hlt. simpl in Hlt. lia. }
   assert (E2 : first_quote_from raw 0 (length raw - N.to_nat (bl_ws (blex_run raw))) = length raw).
